@@ -39,6 +39,12 @@ var (
 )
 
 func report(kind string, a, b, out []byte, detail string) {
+	if run == nil {
+		if vlib.FuzzFail != nil {
+			vlib.FuzzFail(kind + ": " + detail)
+		}
+		return
+	}
 	kindMu.Lock()
 	kindSeen[kind]++
 	n := kindSeen[kind]
@@ -383,6 +389,15 @@ func main() {
 				}
 			})
 			r.Set("gnu_patch_agreed", atomic.LoadInt64(&patchOK))
+		}
+		if !r.Quick() {
+			inputs, execs, ok := vlib.GoFuzz("checks/c08", "FuzzDiff", 60*time.Second)
+			r.Set("native_fuzzing", map[string]any{"target": "FuzzDiff", "ran": ok, "last_progress_line": execs, "failing_inputs": len(inputs)})
+			for _, args := range inputs {
+				if len(args) == 2 {
+					checkPair(args[0], args[1], "a", "b")
+				}
+			}
 		}
 		r.Set("hunks_parsed", atomic.LoadInt64(&nHunks))
 		r.Set("diffs_with_several_hunks", atomic.LoadInt64(&nMultiHunk))
